@@ -17,7 +17,10 @@ Inductive res := RNone | RSome (key : str) (groups : list str).
 Inductive pobs := PO (name confName : str) (conf : Z) (matches : list str) (kept : bool) (r : res).
 
 Inductive hop := HReload (nc : list (str * Z)) | HCreate (n : str) | HLeave (n : str)
-                 | HRaced (ncs : list (list (str * Z))).   (* reloads issued back to back, received later *)
+                 | HRaced (ncs : list (list (str * Z)))    (* reloads issued back to back, received later *)
+                 | HRacedLeave (nc : list (str * Z)) (n : str).
+                     (* a reload, and the publisher of n leaves before the path n has received what the reload handed over
+                        (only generated where the order in which the path then takes the two does not matter) *)
 
 (* before_res: for every path live before the step, the resolution of its name under the configuration in force
    after the step; after: the live paths after the step, sorted by name *)
@@ -110,6 +113,7 @@ Definition hstep_model tbl m (s : xstate) (o : hop) : xstate :=
   | HCreate n => xcreate m s n
   | HLeave n => xleave true s n
   | HRaced ncs => drain (fold_left (fun s' nc => xreload m hot_mask s' (confs_of tbl nc)) ncs s)
+  | HRacedLeave nc n => drain (xleave true (xreload m hot_mask s (confs_of tbl nc)) n)
   end.
 
 Fixpoint steps_match tbl m (s : xstate) (steps : list hstep) : bool :=
@@ -220,6 +224,15 @@ Definition kept_rule tbl (cur : list (str * Z)) (prev : list pobs) (o : hop) (br
                       | RNone => false
                       end in
         implb (kept_after after name) hot_ok
+    | HRacedLeave _ n =>
+        let hot_ok := match assoc_res bres name with
+                      | RSome k g => match assoc_id cur k with
+                                     | Some id1 => only_hot_diff (conf_of tbl cid0) (conf_of tbl id1)
+                                     | None => false
+                                     end
+                      | RNone => false
+                      end in
+        if str_eqb n name then implb (kept_after after name) hot_ok else Bool.eqb (kept_after after name) hot_ok
     | HCreate _ => kept_after after name
     | HLeave n => if str_eqb n name then true else kept_after after name
     end) prev
@@ -229,7 +242,7 @@ Fixpoint steps_ok tbl (cur : list (str * Z)) (prev : list pobs) (steps : list hs
   match steps with
   | [] => true
   | HS o bres after :: rest =>
-      let cur' := match o with HReload nc => nc | HRaced ncs => last ncs cur | _ => cur end in
+      let cur' := match o with HReload nc => nc | HRaced ncs => last ncs cur | HRacedLeave nc _ => nc | _ => cur end in
       reconciled cur' after && kept_rule tbl cur' prev o bres after && steps_ok tbl cur' after rest
   end.
 
